@@ -20,7 +20,7 @@ import sys
 from pathlib import Path
 
 VERIF = Path(__file__).resolve().parents[1]
-SEEDED = VERIF / "seeded"
+SEEDED = Path(os.environ.get("SEEDRUN_DIR") or (VERIF / "seeded"))    # harmless refactorings: /verif/harmless
 REPO = Path("/repo")
 PY = "/venv/bin/python"
 
